@@ -11,6 +11,7 @@ package vhook
 
 import (
 	"cmp"
+	"reflect"
 	"slices"
 	"sync/atomic"
 )
@@ -115,4 +116,49 @@ func SortedKeys[M ~map[K]V, K cmp.Ordered, V any](m M) []K {
 		slices.Reverse(keys)
 	}
 	return keys
+}
+
+// selectDesc selects the priority order SelectRecv uses when several cases
+// are ready at once: ascending source order (false) or descending (true).
+var selectDesc atomic.Bool
+
+// SetSelectOrderDesc chooses the priority order of SelectRecv.
+func SetSelectOrderDesc(desc bool) { selectDesc.Store(desc) }
+
+// SelectRecv replaces a blocking `select` whose cases are all plain receives
+// (`case <-ch:`), which is what every multi-way select in go-storethehash
+// looks like. Go picks among several ready cases at random; that randomness
+// would be nondeterminism the explorers do not own. SelectRecv polls the
+// channels in a fixed priority order (which the harness flips between
+// executions, so both orders are explored) and only blocks when none is
+// ready, in which case the first event to arrive decides. It returns the index
+// of the case whose receive completed.
+func SelectRecv(chans ...any) int {
+	n := len(chans)
+	vals := make([]reflect.Value, n)
+	for i := range chans {
+		vals[i] = reflect.ValueOf(chans[i])
+	}
+	desc := selectDesc.Load()
+	for k := 0; k < n; k++ {
+		i := k
+		if desc {
+			i = n - 1 - k
+		}
+		if !vals[i].IsValid() || vals[i].IsNil() {
+			continue
+		}
+		if x, _ := vals[i].TryRecv(); x.IsValid() {
+			return i
+		}
+	}
+	cases := make([]reflect.SelectCase, n)
+	for i := range vals {
+		cases[i] = reflect.SelectCase{Dir: reflect.SelectRecv}
+		if vals[i].IsValid() && !vals[i].IsNil() {
+			cases[i].Chan = vals[i]
+		}
+	}
+	chosen, _, _ := reflect.Select(cases)
+	return chosen
 }
